@@ -93,7 +93,7 @@ def _nospace_end(s):
 
 @composite
 def case(d):
-    p = family.member_of(d, prefer=("K01", "K02", "K03", "K04"))
+    p = family.member_of(d, prefer=("K01", "K02", "K03", "K04"), opts={"decorate": True})
     sp = spans(p)
     forced = None
     if sp and d.bool(0.4):
